@@ -27,6 +27,7 @@ ASSUMPTIONS = common.BASE_ASSUMPTIONS + [
 ]
 REAL_VS_STUB = common.REAL_VS_STUB
 QUICK_RUNS = 56000
+LONG_RUN_EVERY = 211  # one scenario in 211 starts with >= 1100 tiny frames (accepted or rejected) of one or two kinds
 EXPECTED_PROBES = {
     "quick": ["pair:rtcm_empty>ubx_ok", "pair:rtcm_rej>nmea_ok", "pair:ubx_rej>ubx_ok", "pair:noise>ubx_ok", "socket_runs"],
     "thorough": ["pair:rtcm_empty>ubx_ok", "pair:rtcm_rej>nmea_ok", "pair:ubx_rej>ubx_ok", "pair:noise>ubx_ok", "socket_runs"],
@@ -55,6 +56,10 @@ def generate(seed: int, tier: str = "quick") -> dict:
     frames = common.gen_frames(r_dev, n, cfg, mix=r_cfg.choice(mixes), variant_fault=variant)
     if variant:
         pre.hit("fault_firmware_variant")
+    if seed % LONG_RUN_EVERY == LONG_RUN_EVERY - 1:
+        run, style = common.long_run_frames(r_dev, pre)
+        if style not in ("unknown_hdr", "noise"):  # those contain frame-start bytes / are not frames
+            frames = run + frames[:3]
     frames = common.frame_level_faults(r_lnk, frames, pre)
     common.corrupt_preserving(r_lnk, frames, pre, p=r_cfg.choice((0.0, 0.1, 0.3)))
     frames = common.add_noise(r_lnk, frames, pre, p=r_cfg.choice((0.0, 0.15, 0.4)))
